@@ -31,7 +31,9 @@ def _listing(job):
     with open(path, "wb") as f:
         f.write(data)
     try:
-        with py7zr.SevenZipFile(path, "r", **kw) as z:
+        # every second archive is listed from a caller-supplied binary stream instead of a path
+        src = io.BytesIO(data) if zlib.crc32(data) % 2 else path
+        with py7zr.SevenZipFile(src, "r", **kw) as z:
             out["getnames"] = z.getnames()
             out["namelist"] = z.namelist()
             lst = z.list()
